@@ -428,26 +428,7 @@ func (b *Behaviours) Add(js string) {
 
 // Done returns at most max maximal behaviours (seeded choice).
 func (b *Behaviours) Done(max int, rng *rand.Rand) [][]json.RawMessage {
-	sort.Strings(b.lines)
-	var maximal []string
-	for i, l := range b.lines {
-		if i+1 < len(b.lines) && (b.lines[i+1] == l || strings.HasPrefix(b.lines[i+1], l+",")) {
-			continue
-		}
-		maximal = append(maximal, l)
-	}
-	rng.Shuffle(len(maximal), func(i, j int) { maximal[i], maximal[j] = maximal[j], maximal[i] })
-	if len(maximal) > max {
-		maximal = maximal[:max]
-	}
-	var out [][]json.RawMessage
-	for _, l := range maximal {
-		var h []json.RawMessage
-		if json.Unmarshal([]byte(l+"]"), &h) == nil && len(h) > 0 {
-			out = append(out, h)
-		}
-	}
-	return out
+	return core.Behaviours(b.lines, max, rng)
 }
 
 // Generate produces the behaviours (walks over the exported state graph + simulated long behaviours).
